@@ -992,11 +992,12 @@ Proof.
 Qed.
 
 Section LazyLoop.
-Variables (c : cfg) (vid dst : nat) (wl : vec) (t : N) (h : temp) (W0 : world).
+Variables (c : cfg) (vid dst : nat) (wl : vec) (t : N) (rd : M Vec.st mem) (W0 : world).
 Hypothesis Hwf : cfg_wf c.
 Hypothesis Hne : dst <> vid.
 Hypothesis Htok : tok_ok (szn c) t.
-Hypothesis Hbytes : forall u, temp_bytes c h (wl, u) = Ok (enc (szn c) t) (wl, u).
+(* [rd]: how the bytes of the held value are read - through a removal handle, or a drained item's pointer *)
+Hypothesis Hbytes : forall u, rd (wl, u) = Ok (enc (szn c) t) (wl, u).
 
 Record LoopInv (W : world) (ad : avec) (vd : vec) : Prop := {
   li_v : get_vec vid W = Some wl;
@@ -1007,7 +1008,7 @@ Record LoopInv (W : world) (ad : avec) (vd : vec) : Prop := {
 }.
 
 Definition lazy_body : M world unit :=
-  do bs <- on_vec vid (temp_bytes c h);
+  do bs <- on_vec vid rd;
   offer_into c dst {| f_ty := c_ty c; f_src := VClone bs false; f_checked := true; f_drop := DNone |} (push_unchecked c).
 
 Lemma lazy_push_loop : forall n W ad vd m,
@@ -1026,7 +1027,7 @@ Proof.
   - destruct HI as [Hv Hd HV Ho Hf].
     cbn [repeat_m sp_lazy_pushes].
     (* the bytes of the held value *)
-    assert (E1 : on_vec vid (temp_bytes c h) W = Ok (enc (szn c) t) (put_vec vid (Some wl) (wuw W) W))
+    assert (E1 : on_vec vid rd W = Ok (enc (szn c) t) (put_vec vid (Some wl) (wuw W) W))
       by (apply (on_vec_ok vid _ W wl _ wl (wuw W) Hv (Hbytes (wuw W)))).
     set (W1 := put_vec vid (Some wl) (wuw W) W).
     assert (Hd1 : get_vec dst W1 = Some vd) by (unfold W1; rewrite get_vec_put_other' by exact Hne; exact Hd).
@@ -1205,7 +1206,7 @@ Proof.
     assert (Hm : adm_many c w d0 m).
     { pose proof (Hadm d0 (or_introl eq_refl) Hne) as H. cbn [sink_count] in H. rewrite Nat.eqb_refl in H. exact H. }
     destruct (Hm vd Hgvd) as [Hc1 Hc2].
-    destruct (lazy_push_loop c vid d0 wl t h w Hwf Hne Ht Hbytes (N.to_nat n0) w1 ad vd m HI Hc1 Hc2 ltac:(unfold m; lia))
+    destruct (lazy_push_loop c vid d0 wl t (temp_bytes c h) w Hwf Hne Ht Hbytes (N.to_nat n0) w1 ad vd m HI Hc1 Hc2 ltac:(unfold m; lia))
       as (W' & vd' & HI' & Hnx' & Hev' & Hadm' & Erun).
     assert (Hnx1 : unext (wuw w1) = unext (wuw w)) by reflexivity. rewrite Hnx1 in *.
     destruct (sp_lazy_pushes c ad t (unext (wuw w)) (N.to_nat n0)) as [[[ad' evs] nx'] ok] eqn:Esp.
@@ -1232,7 +1233,7 @@ Proof.
     cbn [apply_sink]. fold wl. fold w1.
     change (do bs <- on_vec vid (temp_bytes c h);
             offer_into c d0 {| f_ty := c_ty c; f_src := VClone bs false; f_checked := true; f_drop := DNone |} (push_unchecked c))
-      with (lazy_body c vid d0 h).
+      with (lazy_body c vid d0 (temp_bytes c h)).
     unfold bind at 1. unfold unwinding, on_unwind. rewrite Erun.
     destruct ok.
     + (* all clones went in: the rest of the sink, from the world in which the other vector has grown *)
